@@ -129,6 +129,11 @@ def directed():
         # deferred notifications flushed by a later event send, and by a refused one (ring full)
         P.append([c, "Rep 290 SEvent 16", "Rep 200 CEvRecv", "SEvent 16", "Rep 100 CEvRecv", "Rep 600 SEvent 16", "Rep 300 CEvRecv",
                   "Rep 3 SEvent 16", "SPoll", "Rep 900 CEvRecv"])
+        # exactly one / two / three notifications owed when POLLOUT is handled, or when the next event is sent
+        for k in (1, 2, 3):
+            P.append([c, "Rep %d SEvent 16" % (278 + k), "Rep 250 CEvRecv", "SPoll", "Until 100 CEvRecv", "SPoll", "CEvRecv"])
+            P.append([c, "Rep %d SEvent 16" % (278 + k), "Rep 250 CEvRecv", "SEvent 17", "Until 100 CEvRecv", "SPoll", "Until 100 CEvRecv"])
+            P.append([c, "Rep %d SEvent 16" % (278 + k), "SEvent 17", "Rep 250 CEvRecv", "SForce 5", "SEvent 17", "Until 100 CEvRecv", "SPoll", "CEvRecv"])
         # request bursts under the three rates: 50 / 5 / 1 per dispatch
         for rl in (0, 1, 2):
             P.append([c, "SRate %d" % rl, "Rep 120 CSend 16", "Rep 8 SPoll", "Rep 60 CSendv 17", "Rep 130 SPoll", "SPoll"])
